@@ -466,6 +466,44 @@ def tie(ctx):
         if len(dis) < 10:
             dis.append({'what': 'SyncLogger script: model and implementation differ', 'script': scripts[bi],
                         'impl': sexp[bi], 'model': mv})
+    # SyncLogger under threads: system scripts on the real class behind the gate vs sys_step
+    stt = _threads()
+    nt = ctx.scale(150, 3000)
+    tterms, texp, tcases = [], [], []
+    for _ in range(nt):
+        c = _gen_threads(rng, False)
+        evs = [tuple(e) for e in c['script']]
+        rows = stt.run_script(c['loggers'], evs)
+        texp.append([v for row in rows for v in row])
+        tterms.append(stt.coq_term(c['loggers'], evs))
+        tcases.append(c)
+    THEADER = HEADER + 'Require Import CF.C05.SyncThreads.\n'
+    tbad = [bi for bi, _ in coqrun.compare_blocks(THEADER, tterms, texp, tag='c05t', shard=max(8, nt // 8 + 1),
+                                                  timeout=600)]
+    for bi in sorted(tbad, key=lambda i: len(tcases[i]['script']))[:2]:
+        c = tcases[bi]
+        evs = [tuple(e) for e in c['script']]
+        # shrink: drop events while model and implementation still differ
+        changed = True
+        while changed and len(evs) > 1:
+            changed = False
+            cands = [evs[:i] + evs[i + 1:] for i in range(len(evs))]
+            rows = [stt.run_script(c['loggers'], cd) for cd in cands]
+            bad = coqrun.compare_blocks(THEADER, [stt.coq_term(c['loggers'], cd) for cd in cands],
+                                        [[v for row in r for v in row] for r in rows], tag='c05u',
+                                        shard=max(1, len(cands) // 12 + 1), timeout=600)
+            if bad:
+                evs = cands[bad[0][0]]
+                changed = True
+        rows = stt.run_script(c['loggers'], evs)
+        mv = coqrun.eval_terms(THEADER, [stt.coq_term(c['loggers'], evs)], tag='c05v', timeout=600)[0]
+        dis.append({'what': 'SyncLogger under threads: model and implementation differ', 'loggers': c['loggers'],
+                    'script': evs, 'shrunk_from_events': len(c['script']),
+                    'impl_rows': rows, 'model_flat': mv,
+                    'row_format': '[observation] + per logger [connected, consumer in get(), pending sentinels, '
+                                  'queue length, queue items..] (coq/C05/TieEnc.v enc_sys_run)'})
+    if len(tbad) > 2:
+        dis.append({'what': 'SyncLogger under threads: model and implementation differ', 'more_scripts': len(tbad) - 2})
     seen = set()
     nontriv = 0
     tot = {}
@@ -482,9 +520,13 @@ def tie(ctx):
     tot['events'] = sum(len(g.evs) for g in gens)
     tot['histories'] = len(gens)
     tot['sync_scripts'] = ns
+    tot['thread_scripts'] = nt
+    tot['thread_events'] = sum(len(c['script']) for c in tcases)
     return {
-        'evaluations': len(gens) + ns,
-        'distinct_nontrivial': nontriv + snontriv,
+        'evaluations': len(gens) + ns + nt,
+        'distinct_nontrivial': nontriv + snontriv + len(set(
+            json.dumps(c['script']) for c in tcases if any(e[0] == 'lostall' or e[-1] == 'disconnect' for e in c['script'])
+            and any(e[-1] == 'get' for e in c['script']))),
         'rule': 'log histories: distinct event lists with >= 1 accepted add_config, >= 1 create/append packet sent and '
                 '>= 1 ack or decoded data packet processed; SyncLogger: distinct scripts containing a link loss or a '
                 'disconnect.  After EVERY event the wire packets, callbacks (with arguments), decoded samples, raised '
@@ -933,10 +975,169 @@ def _gen_sync_case(rng):
     return {'kind': 'sync', 'script': [e for e in _gen_sync(rng)]}
 
 
+# ------------------------------------------------------------------------------------------ SyncLogger under threads
+LOGGER_SETS = [[[0], [1, 2]], [[0], [1, 2]], [[0]], [[0, 1]], [[0], [1], [2]]]
+
+
+def _threads():
+    from fakes import c05_sync_threads
+    return c05_sync_threads
+
+
+def _gen_threads(rng, restricted):
+    """a system script.  restricted (oracle): disconnect() is not called while that logger's consumer is inside
+    get(), and connect() not between the two halves of a link loss (the two documented observations)"""
+    loggers = rng.choice(LOGGER_SETS)
+    n = len(loggers)
+    conn = [False] * n
+    inget = [False] * n
+    pend = [0] * n
+    k = 0
+    evs = []
+    for _ in range(rng.randrange(6, 40)):
+        r = rng.random()
+        i = rng.randrange(n)
+        if r < 0.28:
+            k += 1
+            evs.append(['sample', rng.choice([0, 1, 2, 3, 3, 4] if rng.random() < 0.3 else
+                                             [c for l in loggers for c in l]), k])
+        elif r < 0.48:
+            if inget[i] and not restricted and rng.random() < 0.7:
+                evs.append(['op', i, 'get'])
+            else:
+                evs.append(['op', i, 'next'])
+                if not inget[i] and conn[i]:
+                    inget[i] = True
+        elif r < 0.70:
+            evs.append(['op', i, 'get'])
+            inget[i] = False if inget[i] else inget[i]      # may stay blocked: the real run tells
+        elif r < 0.80:
+            if restricted and pend[i]:
+                continue
+            evs.append(['op', i, 'connect'])
+            conn[i] = True
+        elif r < 0.86:
+            if restricted and inget[i]:
+                continue
+            evs.append(['op', i, 'disconnect'])
+            conn[i] = False
+        elif r < 0.93:
+            evs.append(['lostall'])
+            for j in range(n):
+                if conn[j]:
+                    conn[j] = False
+                    pend[j] += 1
+        else:
+            evs.append(['op', i, 'lost2'])
+            pend[i] = max(0, pend[i] - 1)
+        if restricted and rng.random() < 0.5:
+            for j in range(n):
+                if pend[j]:
+                    evs.append(['op', j, 'lost2'])
+                    pend[j] -= 1
+    return {'kind': 'threads', 'loggers': loggers, 'script': evs, 'restricted': restricted}
+
+
+def _check_threads(case):
+    """the clause text on the real SyncLogger with real threads: every logger yields the samples of its own
+    blocks decoded between its connect and disconnect, each once, in order, and then stops; it is never
+    left blocked once a link loss has completed"""
+    st = _threads()
+    loggers = case['loggers']
+    n = len(loggers)
+    run = st.Run(loggers)
+    try:
+        conn = [False] * n
+        busy = [False] * n          # consumer inside get()
+        pend = [0] * n
+        q = [[] for _ in range(n)]  # what the queue of logger i must hold: sample numbers, 'D' = sentinel
+
+        def result(i, code, what):
+            if busy[i] and not q[i]:
+                if code != 4:
+                    raise _Fail('sync_threads_wrong_yield', 'blocked (nothing delivered)', code, what)
+                return
+            head = q[i].pop(0)
+            busy[i] = False
+            want = 1 if head == 'D' else 10 + head
+            if code == 4:
+                raise _Fail('sync_threads_blocked_with_data' if head != 'D' else 'sync_threads_blocked_after_link_loss',
+                            'returns %s' % ('StopIteration' if head == 'D' else head), 'stays blocked', what)
+            if code != want:
+                raise _Fail('sync_threads_wrong_yield', 'StopIteration' if head == 'D' else head,
+                            {1: 'StopIteration'}.get(code, code - 10 if code >= 10 else code), what)
+        for e in list(case['script']):
+            k = e[0]
+            if k == 'sample':
+                run.apply(e)
+                for i in range(n):
+                    if conn[i] and e[1] in loggers[i]:
+                        q[i].append(e[2])
+                continue
+            if k == 'lostall':
+                run.apply(e)
+                for i in range(n):
+                    if conn[i]:
+                        conn[i] = False
+                        pend[i] += 1
+                continue
+            i, op = e[1], e[2]
+            if case.get('restricted') and ((op == 'disconnect' and busy[i]) or (op == 'connect' and pend[i])):
+                continue                  # outside the clause: see design.d/C05.md (observations)
+            code = run.apply(e)[0]
+            if op == 'connect':
+                if conn[i]:
+                    if code != 3:
+                        raise _Fail('sync_threads_connect_twice', 'raises', code)
+                else:
+                    if code != 0:
+                        raise _Fail('sync_threads_connect_failed', 0, code)
+                    conn[i] = True
+                    q[i] = []
+            elif op == 'disconnect':
+                conn[i] = False
+            elif op == 'lost2':
+                if pend[i]:
+                    pend[i] -= 1
+                    q[i].append('D')
+            elif op == 'next':
+                if busy[i]:
+                    continue
+                if not conn[i]:
+                    if code != 1:
+                        raise _Fail('sync_threads_not_stopped', 'StopIteration', code, 'next() while not connected')
+                else:
+                    if code != 2:
+                        raise _Fail('sync_threads_wrong_yield', 'enters get()', code)
+                    busy[i] = True
+            elif op == 'get':
+                if busy[i]:
+                    result(i, code, 'get() of logger %d' % i)
+        # the end: complete the link losses; every consumer must come to an end
+        if case.get('restricted'):
+            for i in range(n):
+                while pend[i]:
+                    run.apply(['op', i, 'lost2'])
+                    pend[i] -= 1
+                    q[i].append('D')
+                if not conn[i]:
+                    if busy[i]:
+                        if not q[i]:
+                            continue      # only after an explicit disconnect, which `restricted` excludes while busy
+                        result(i, run.apply(['op', i, 'get'])[0], 'final get() of logger %d' % i)
+                    code = run.apply(['op', i, 'next'])[0]
+                    if code != 1:
+                        raise _Fail('sync_threads_not_stopped', 'StopIteration', code, 'after the session ended')
+    finally:
+        run.close()
+
+
 def _run_case(case):
     try:
         if case['kind'] == 'block':
             _check_block(case)
+        elif case['kind'] == 'threads':
+            _check_threads(case)
         else:
             _check_sync(case)
     except _Fail as f:
@@ -963,7 +1164,7 @@ def _shrink(case, cls, budget=400):
     changed = True
     while changed and n[0] < budget:
         changed = False
-        if cur['kind'] == 'sync':
+        if cur['kind'] in ('sync', 'threads'):
             for i in range(len(cur['script'])):
                 c = dict(cur, script=cur['script'][:i] + cur['script'][i + 1:])
                 if attempt(c):
@@ -1020,6 +1221,7 @@ def oracle(ctx, deep=False):
     nb = ctx.scale(500, 8000) * (4 if deep else 1)
     cases += [_gen_block_case(rng) for _ in range(nb)]
     cases += [_gen_sync_case(rng) for _ in range(ctx.scale(200, 3000))]
+    cases += [_gen_threads(rng, True) for _ in range(ctx.scale(150, 2500))]
     seen = {}
     for c in cases:
         n += 1
@@ -1080,9 +1282,15 @@ PROVED = ('Over the model: add_config accepts iff names in TOC, 1<=int(ms/10)<=2
           'sent exactly on the first positive create ack; the variable list of an accepted configuration is stable under '
           'every later history including reconnect and re-add (F05b repaired) and the acknowledged reset of a new session clears the flags of all blocks '
           '(F05c repaired), so a re-added block is created again; protocol V1 creation message; SyncLogger session is '
-          'FIFO, at-most-once, starts empty (F05d repaired) and stops at the disconnect.')
+          'FIFO, at-most-once, starts empty (F05d repaired) and stops at the disconnect; under threads (all interleavings of '
+          'dispatcher, user and consumer steps, several loggers): yields a prefix of the own samples delivered in the session, '
+          'nothing foreign or from an earlier session, and terminates after a completed link loss.')
 NOT_PROVED = ('Refuted on the unchanged code and kept as a known finding: raw-memory variables (add_memory) make create() '
               'raise TypeError (F05a; why it is not repaired: findings/C05.json why_not_fixed).  Not covered: protocol V1 has '
               'its theorem but no room test exists in the code (more than 14 variables exceed 30 bytes); append '
               'acknowledgements are ignored by the code; samples still queued in SyncLogger at disconnect are dropped; '
-              'Log.reset() (public) clears log_blocks without touching the flags; float period arguments; the firmware itself.')
+              'Log.reset() (public) clears log_blocks without touching the flags; float period arguments; the firmware itself.  '
+              'Observations under threads (not findings): disconnect() from another thread while the consumer is inside get() '
+              'leaves it blocked; connect() between the two halves of _disconnected receives the old sentinel.  create() of a '
+              'multi-message block is atomic in the model (a create ack handled between two of its send_packet calls would put '
+              'START before the appends).')
